@@ -298,8 +298,15 @@ impl<const B: Word> Repr<B> {
                 let shift = -diff as usize;
                 let (signif, rem) = split_digits_ref::<B>(&self.significand, shift);
                 let adjust = R::round_fract::<B>(&signif, rem, shift);
-                rounded_signif = signif + adjust;
-                (&rounded_signif, self.exponent - diff)
+                let rounded = signif + adjust;
+                if digit_len::<B>(&rounded) as isize > prec {
+                    // the rounding carried into a new digit (9.99 -> 10.0): drop the last (zero) digit
+                    rounded_signif = rounded / B;
+                    (&rounded_signif, self.exponent - diff + 1)
+                } else {
+                    rounded_signif = rounded;
+                    (&rounded_signif, self.exponent - diff)
+                }
             } else {
                 (&self.significand, self.exponent)
             }
